@@ -68,43 +68,7 @@ fn c11_run(bw: &mut BWorker, payload: &[u8], io: &mut WorkerIo) -> Vec<u8> {
     res.0
 }
 
-pub fn c11(tier: &str, seed: u64) -> i32 {
-    let mut ctx = Ctx::new("C11", tier, seed, "model_checking");
-    let thorough = ctx.thorough();
-    // two maps of the same type whose names differ only after a dot, and one map of every other type;
-    // maps 0/1 and 2/3 (names differing only in letter case) share their keys on purpose: the same key in two maps must stay two entries
-    let mut maps = vec![
-        std_map(KtId::Str, 8, 2, 5, seed, "users.v1"),
-        std_map(KtId::Str, 8, 2, 5, seed, "users.v2"),
-        std_map(KtId::Bytes, 8, 2, 5, seed ^ 9, "Cc"),
-        std_map(KtId::Bytes, 8, 2, 5, seed ^ 9, "cc"),
-        std_map(KtId::U64, 8, 2, 8, seed, "d"),
-    ];
-    maps[1].keys = maps[0].keys.clone();
-    maps.push(std_map(KtId::I64, 8, 2, 8, seed, "e"));
-    maps.push(std_map(KtId::Vu64, 8, 2, 8, seed, "f.g"));
-    let _ = thorough;
-    let mut letters = Vec::new();
-    for mi in 0..maps.len() as u8 {
-        for h in 0..5u8 {
-            letters.push(Letter { kind: L_PUT, map: mi, handle: h, key: 0, val: mi % 2 });
-            letters.push(Letter { kind: L_DEL, map: mi, handle: h, key: 0, val: 0 });
-        }
-        letters.push(Letter { kind: L_PUT, map: mi, handle: H_FIRST, key: 1, val: 1 - mi % 2 });
-        letters.push(Letter { kind: L_PUT, map: mi, handle: H_PARAMS, key: 1, val: 1 - mi % 2 });
-    }
-    letters.push(Letter { kind: L_DB_SYNC_ALL, map: 0, handle: 0, key: 0, val: 0 });
-    let cfg = BCfg {
-        prop: "C11".into(),
-        maps,
-        val_lens: vec![7, 90],
-        letters,
-        depth: 3,
-        flags: F_OBSERVE_ALL | F_DECODE_END | F_RETURN_IMAGES,
-        seed,
-        reopen: vec![],
-        other_params: Params { ht: HtP::Buckets(1024), val: BufP::Size(262144), key: BufP::Auto, htx: BufP::Auto },
-    };
+fn c11_explore(ctx: &mut Ctx, cfg: &BCfg, limit: f64, label: &str) {
     ctx.pool.reinit(vec![{
         let mut b = Buf::new();
         b.u8(JOB_B_CONFIG).bytes(&cfg.enc());
@@ -120,7 +84,6 @@ pub fn c11(tier: &str, seed: u64) -> i32 {
         }
     }
     let t0 = ctx.run.elapsed();
-    let limit = if thorough { 600.0 } else { 45.0 };
     let mut memo: HashMap<(u8, Vec<u8>), (u64, u32, Vec<u8>)> = HashMap::new();
     let mut complete = true;
     let mut sequences = 0u64;
@@ -150,7 +113,7 @@ pub fn c11(tier: &str, seed: u64) -> i32 {
                     if let Some((seq, pos, key, msg)) = o.failure {
                         let mut case = Buf::new();
                         case.bytes(&seq);
-                        let mut story = seq_story(&cfg, &seq, pos);
+                        let mut story = seq_story(cfg, &seq, pos);
                         story.push(format!("observed: {msg}"));
                         ctx.run.violation(Violation { prop: "C11".into(), key, message: msg, replay: Replay { engine: "B".into(), config: cfg.enc(), case: case.0, story } });
                     }
@@ -194,14 +157,15 @@ pub fn c11(tier: &str, seed: u64) -> i32 {
         }
     }
     eprintln!("[C11] sequences={sequences} calls={calls} projections={} checked={proj_checked} complete={complete} {:.1}s", memo.len(), ctx.run.elapsed() - t0);
-    ctx.states = sequences;
-    ctx.transitions = calls;
+    ctx.states += sequences;
+    ctx.transitions += calls;
     if !complete {
         ctx.all_closed = false;
     }
     ctx.run.add("distinct_projections", memo.len() as i64);
     ctx.run.add("projection_comparisons", proj_checked as i64);
     ctx.runs.push(J::obj(vec![
+        ("label", J::s(label)),
         ("maps", J::Arr(cfg.maps.iter().map(|m| J::s(&format!("{} ({})", m.name, m.kt.name()))).collect())),
         ("letters", J::Int(a as i64)),
         ("depth", J::Int(cfg.depth as i64)),
@@ -211,6 +175,68 @@ pub fn c11(tier: &str, seed: u64) -> i32 {
     ]));
     for l in cfg.letters.iter().step_by(7) {
         ctx.run.sample(J::s(&cfg.label(l)));
+    }
+}
+
+pub fn c11(tier: &str, seed: u64) -> i32 {
+    let mut ctx = Ctx::new("C11", tier, seed, "model_checking");
+    let thorough = ctx.thorough();
+    // two maps of the same type whose names differ only after a dot, and one map of every other type;
+    // maps 0/1 and 2/3 (names differing only in letter case) share their keys on purpose: the same key in two maps must stay two entries
+    let mut maps = vec![
+        std_map(KtId::Str, 8, 2, 5, seed, "users.v1"),
+        std_map(KtId::Str, 8, 2, 5, seed, "users.v2"),
+        std_map(KtId::Bytes, 8, 2, 5, seed ^ 9, "Cc"),
+        std_map(KtId::Bytes, 8, 2, 5, seed ^ 9, "cc"),
+        std_map(KtId::U64, 8, 2, 8, seed, "d"),
+    ];
+    maps[1].keys = maps[0].keys.clone();
+    maps.push(std_map(KtId::I64, 8, 2, 8, seed, "e"));
+    maps.push(std_map(KtId::Vu64, 8, 2, 8, seed, "f.g"));
+    let _ = thorough;
+    let mut letters = Vec::new();
+    for mi in 0..maps.len() as u8 {
+        for h in 0..5u8 {
+            letters.push(Letter { kind: L_PUT, map: mi, handle: h, key: 0, val: mi % 2 });
+            letters.push(Letter { kind: L_DEL, map: mi, handle: h, key: 0, val: 0 });
+        }
+        letters.push(Letter { kind: L_PUT, map: mi, handle: H_FIRST, key: 1, val: 1 - mi % 2 });
+        letters.push(Letter { kind: L_PUT, map: mi, handle: H_PARAMS, key: 1, val: 1 - mi % 2 });
+    }
+    letters.push(Letter { kind: L_DB_SYNC_ALL, map: 0, handle: 0, key: 0, val: 0 });
+    let cfg = BCfg {
+        prop: "C11".into(),
+        maps,
+        val_lens: vec![7, 90],
+        letters,
+        depth: 3,
+        flags: F_OBSERVE_ALL | F_DECODE_END | F_RETURN_IMAGES,
+        seed,
+        reopen: vec![],
+        other_params: Params { ht: HtP::Buckets(1024), val: BufP::Size(262144), key: BufP::Auto, htx: BufP::Auto },
+    };
+    c11_explore(&mut ctx, &cfg, if thorough { 600.0 } else { 45.0 }, "handle kinds");
+    if ctx.run.violations.is_empty() {
+        // names that a careless normalisation would identify: pairs differing only by a trailing or leading
+        // blank, by letter case, by what follows a dot, by a trailing dot; each pair of one key type, same keys
+        let names: [(&str, &str, KtId); 5] = [("idx", "idx ", KtId::Str), (" lead", "lead", KtId::Bytes), ("Name", "name", KtId::U64), ("a.b", "a.c", KtId::I64), ("dot.", "dot", KtId::Vu64)];
+        let mut maps2: Vec<BMap> = Vec::new();
+        for (x, y, kt) in names {
+            let m1 = std_map(kt, 8, 2, 6, seed, x);
+            let mut m2 = std_map(kt, 8, 2, 6, seed, y);
+            m2.keys = m1.keys.clone();
+            maps2.push(m1);
+            maps2.push(m2);
+        }
+        let mut letters2 = Vec::new();
+        for mi in 0..maps2.len() as u8 {
+            letters2.push(Letter { kind: L_PUT, map: mi, handle: H_FIRST, key: 0, val: mi % 2 });
+            letters2.push(Letter { kind: L_DEL, map: mi, handle: H_LOOKUP, key: 0, val: 0 });
+            letters2.push(Letter { kind: L_PUT, map: mi, handle: H_PARAMS, key: 1, val: 1 - mi % 2 });
+        }
+        letters2.push(Letter { kind: L_DB_SYNC_ALL, map: 0, handle: 0, key: 0, val: 0 });
+        let cfg2 = BCfg { maps: maps2, letters: letters2, ..cfg.clone() };
+        c11_explore(&mut ctx, &cfg2, if thorough { 300.0 } else { 30.0 }, "look-alike names");
     }
     let rule = "bounded-exhaustive call sequences on live handles (engine B) over several named maps of mixed key types in one directory (maps a and b use the same keys): letters = {put k1, delete k1, put k2} on map i through handle kind h in {first handle, its clone, repeated lookup, lookup through db.clone(), *_with_params(other parameters)} plus db.sync_all; all sequences of the depth. oracle after every call: every live handle of every map answers get of every key and len per that map's own model (aliases see each other at once, other maps unchanged); at the end every map's files decode to its model; projection differential: the files of map j are a function of the subsequence of updates of map j alone - compared byte-digest-wise across all sequences with the same projection. non-trivial = projection comparisons";
     ctx.finish_model_checking(rule, &["projection_comparisons"])
